@@ -129,3 +129,43 @@ Proof.
   split; [vm_compute; discriminate|]. split; [vm_compute; reflexivity|].
   vm_compute. split; reflexivity.
 Qed.
+
+(* ---- 9.5 on a regex: /a(.....)??bb/ on "axxabbbb" *)
+Definition h_95r : hir :=
+  HConcat [HLit 97; HRep (HGroup (HConcat [HDot; HDot; HDot; HDot; HDot])) ZeroOrOne false; HLit 98; HLit 98].
+Definition md_re : mods :=
+  {| m_fullword := false; m_wide := false; m_ascii := true; m_nocase := false; m_dot_all := false |}.
+Definition d_95r : sdesc :=
+  {| s_lits := [[98;98]]; s_atoms := [(0, 0)]; s_kind := KNonGreedy; s_mods := md_re;
+     s_hir := h_95r; s_pre := Some h_95r; s_post := None |}.
+
+Lemma start_position_regex_refuted :
+  In 0 (starts_spec (flags_of md_re) m_95 h_95r)
+  /\ ~ In 0 (map fst (model_scan d_95r m_95 1000))
+  /\ kf_start_position d_95r m_95 1000 = true.
+Proof.
+  repeat split.
+  - vm_compute. left. reflexivity.
+  - vm_compute. intros [H|[]]. discriminate.
+Qed.
+
+(* ---- the raw path: /^ab+$/ is scanned raw; hypotheses of raw_scan_exact are satisfiable *)
+Definition h_raw : hir := HConcat [HLit 97; HRep (HLit 98) OneOrMore true; HLit 99].
+Lemma raw_example_hyps :
+  plain md_re /\ ends (flags_of md_re) [120;97;98;98;99;97;98;99] h_raw 8 = []
+  /\ raw_scan md_re h_raw [120;97;98;98;99;97;98;99] 1000 = [(1, 4); (5, 3)].
+Proof. split; [split; reflexivity|]. vm_compute. split; reflexivity. Qed.
+
+(* ---- a greedy regex: /x.+ab/ has kind Greedy (pre contains a greedy repetition); soundness needs no Decomp *)
+Definition h_gr : hir := HConcat [HLit 120; HRep HDot OneOrMore true; HLit 97; HLit 98].
+Definition d_gr : sdesc :=
+  {| s_lits := [[97;98]]; s_atoms := [(0, 0)]; s_kind := KGreedy; s_mods := md_re;
+     s_hir := h_gr; s_pre := Some h_gr; s_post := None |}.
+Lemma greedy_example_hyps :
+  plain md_re /\ atoms_ok d_gr /\ kind_ok d_gr
+  /\ model_scan d_gr [120;49;97;98;50;97;98;120;97;98] 1000 = [(0, 10)].
+Proof.
+  split; [split; reflexivity|]. split.
+  { split; [reflexivity|]. vm_compute. constructor; [discriminate|constructor]. }
+  split; [right; right; split; [reflexivity|eexists; reflexivity]|]. vm_compute. reflexivity.
+Qed.
